@@ -6,7 +6,7 @@ import json, random
 SHORTS = "abcdefgijklmnopqrstuvwxyz"
 LONGS = ["in", "input", "input-file", "inc", "include", "out", "output", "opt", "option", "verbose", "value", "val",
          "name", "num", "number", "level", "list", "limit", "mode", "max", "maxsize", "min", "file", "filter", "force"]
-SCALAR = ["int", "str", "optint"]
+SCALAR = ["int", "str", "optint", "dbl"]
 CONT = ["vecint", "vecstr", "setint", "listint", "dequeint", "arr3", "sarr3", "fwdint", "msetint", "stackint", "queueint",
         "pqint", "tup", "bits8"]
 ARR = ("arr3", "sarr3")
@@ -23,7 +23,7 @@ def S(codes):
 
 
 def new_arg(kind):
-    init = {"flag": False, "int": 0, "str": [], "optint": [], "arr3": [0, 0, 0], "sarr3": [0, 0, 0], "tup": [0, [], 0],
+    init = {"flag": False, "int": 0, "dbl": 0, "str": [], "optint": [], "arr3": [0, 0, 0], "sarr3": [0, 0, 0], "tup": [0, [], 0],
             "bits8": [False] * 8}.get(kind, [])
     return {"s": 0, "l": [], "pos": False, "kind": kind, "vm": "none" if kind == "flag" else "req", "mand": False,
             "card": {"t": "dflt", "a": 0, "b": 0}, "checks": [], "formats": [], "sep": 44, "clear": False, "sort": False,
@@ -53,7 +53,7 @@ class Gen:
         longs = r.sample(LONGS, n)
         args = []
         for i in range(n):
-            kind = r.choice(kinds) if kinds else r.choice(["flag", "flag", "int", "int", "str", "optint"] + CONT)
+            kind = r.choice(kinds) if kinds else r.choice(["flag", "flag", "int", "int", "str", "optint", "dbl", "dbl"] + CONT)
             a = new_arg(kind)
             ks = r.random()
             if ks < 0.2:
@@ -68,6 +68,8 @@ class Gen:
                 a["init"] = r.random() < 0.2
             elif kind == "int":
                 a["init"] = r.choice([0, -1, 42, 7])
+            elif kind == "dbl":
+                a["init"] = r.choice([0, 10, -1, 400])           # quarters: 0, 2.5, -0.25, 100
             elif kind == "str":
                 a["init"] = T(r.choice(["", "dflt", "x"]))
             elif kind == "optint":
@@ -193,6 +195,12 @@ class Gen:
     def good_value(self, a):
         """a text that converts and passes the checks of argument a (one element)."""
         r = self.r
+        if a["kind"] == "dbl":
+            ip = r.choice([0, 1, 2, 7, 10, 99, 1000, 123456])
+            s = str(ip) + r.choice(["", ".0", ".25", ".5", ".50", ".75", ".00"])
+            if r.random() < 0.3:
+                s = "-" + s
+            return s
         if is_int_kind(a["kind"]):
             lo, hi, vals = -1000000, 1000000, None
             for c in a["checks"]:
@@ -230,6 +238,8 @@ class Gen:
 
     def bad_value(self, a):
         r = self.r
+        if a["kind"] == "dbl":
+            return r.choice(["x", "1.2.3", "", "1,5", "2.5x", "--1"])
         if a["kind"] == "bits8":
             return r.choice(["8", "9", "x", "100"])
         if a["kind"] == "tup":
@@ -370,6 +380,9 @@ class Gen:
         return uses
 
     def _canon(self, a, v):
+        if a["kind"] == "dbl":
+            try: return float(v)
+            except ValueError: return v
         if is_int_kind(a["kind"]):
             try: return int(v)
             except ValueError: return v
